@@ -129,6 +129,14 @@ def diagnose(tree, drop):
                 owner = 'empty body of %s' % prev
             elif prev == ':':
                 owner = 'empty statement after :'
+            if nxt == '{':
+                # a block follows: does anything but braces and semicolons follow before the enclosing block (or the text) ends?
+                depth_, q_ = 0, i + 1
+                while q_ < len(full) and full[q_] in '{};' and (full[q_] != '}' or depth_ > 0):
+                    depth_ += {'{': 1, '}': -1}.get(full[q_], 0)
+                    q_ += 1
+                if q_ >= len(full) or (full[q_] == '}' and depth_ == 0):
+                    return 'SEMI-DROPPED %s before a block without any text token' % owner
             return 'SEMI-DROPPED %s before %r' % (owner, nxt if nxt in ('}', 'END', 'else', 'while') else 'token')
     return 'OTHER'
 
